@@ -31,23 +31,27 @@ theorem Variance.xform_inv (v : Variance) (h : v ≠ .bi) : Variance.xform v .in
 
 /-- A field list with one field invariant in the target is invariant, whatever else it holds. -/
 theorem fieldsVar_inv_of_mem (look : VarOracle) (tgt : Target) :
-    ∀ (fs : List Field) (f : Field), f ∈ fs → varTy look tgt .co f.ty = .inv →
+    ∀ (fs : List Field) (f : Field), f ∈ fs → f.cfg = "" → varTy look tgt .co f.ty = .inv →
       fieldsVar look tgt fs = .inv
-  | [], _, h, _ => by cases h
-  | g :: gs, f, h, hv => by
+  | [], _, h, _, _ => by cases h
+  | g :: gs, f, h, hc, hv => by
     simp only [fieldsVar]
     cases h with
-    | head => rw [hv, Variance.glb_inv_left]
-    | tail _ h' => rw [fieldsVar_inv_of_mem look tgt gs f h' hv, Variance.glb_inv_right]
+    | head => simp [hc, hv, Variance.glb_inv_left]
+    | tail _ h' =>
+      rw [fieldsVar_inv_of_mem look tgt gs f h' hc hv]
+      split
+      · exact Variance.glb_inv_right _
+      · rfl
 
 /-- `variance_inv_of_field`: a struct with a field invariant in `'a` is invariant in `'a`. -/
 theorem variance_inv_of_field (tbl : Table) (n : String) (d : AdtDef) (f : Field) (tgt : Target)
-    (hd : tbl.find n = some d) (hf : f ∈ d.fields)
+    (hd : tbl.find n = some d) (hf : f ∈ d.fields) (hc : f.cfg = "")
     (hv : varTy (adtVarOracle tbl fuel) tgt .co f.ty = .inv) :
     tbl.variance n tgt = .inv := by
   unfold Table.variance
   rw [hd]
-  exact fieldsVar_inv_of_mem _ _ _ f hf hv
+  exact fieldsVar_inv_of_mem _ _ _ f hf hc hv
 
 /-- `invariant_marker`: `PhantomData<Cell<&'a ()>>` is invariant in `'a` (for every oracle, so for
 every table and fuel). -/
@@ -63,48 +67,56 @@ theorem covariant_marker (look : VarOracle) (a : String) :
 /-! ## Auto traits -/
 
 theorem fieldsAuto_send_false (look : AutoOracle) (env : List (String × Auto)) :
-    ∀ (fs : List Field) (f : Field), f ∈ fs → (autoTy look env f.ty).send = false →
+    ∀ (fs : List Field) (f : Field), f ∈ fs → f.cfg = "" → (autoTy look env f.ty).send = false →
       (fieldsAuto look env fs).send = false
-  | [], _, h, _ => by cases h
-  | g :: gs, f, h, hv => by
-    simp only [fieldsAuto, Auto.and]
+  | [], _, h, _, _ => by cases h
+  | g :: gs, f, h, hc, hv => by
+    simp only [fieldsAuto]
     cases h with
-    | head => simp [hv]
-    | tail _ h' => simp [fieldsAuto_send_false look env gs f h' hv]
+    | head => simp [hc, hv, Auto.and]
+    | tail _ h' =>
+      have ih := fieldsAuto_send_false look env gs f h' hc hv
+      split
+      · simp [Auto.and, ih]
+      · exact ih
 
 theorem fieldsAuto_sync_false (look : AutoOracle) (env : List (String × Auto)) :
-    ∀ (fs : List Field) (f : Field), f ∈ fs → (autoTy look env f.ty).sync = false →
+    ∀ (fs : List Field) (f : Field), f ∈ fs → f.cfg = "" → (autoTy look env f.ty).sync = false →
       (fieldsAuto look env fs).sync = false
-  | [], _, h, _ => by cases h
-  | g :: gs, f, h, hv => by
-    simp only [fieldsAuto, Auto.and]
+  | [], _, h, _, _ => by cases h
+  | g :: gs, f, h, hc, hv => by
+    simp only [fieldsAuto]
     cases h with
-    | head => simp [hv]
-    | tail _ h' => simp [fieldsAuto_sync_false look env gs f h' hv]
+    | head => simp [hc, hv, Auto.and]
+    | tail _ h' =>
+      have ih := fieldsAuto_sync_false look env gs f h' hc hv
+      split
+      · simp [Auto.and, ih]
+      · exact ih
 
 /-- `not_send_of_field`: a struct with a non-`Send` field and no explicit `unsafe impl Send` is not
 `Send`, for any instantiation of its parameters. -/
 theorem not_send_of_field (tbl : Table) (n : String) (d : AdtDef) (f : Field)
-    (hd : tbl.find n = some d) (hf : f ∈ d.fields)
+    (hd : tbl.find n = some d) (hf : f ∈ d.fields) (hc : f.cfg = "")
     (hv : (autoTy (adtAutoOracle tbl fuel) [] f.ty).send = false)
     (hi : tbl.hasAutoImpl "Send" n false = false) :
     (tbl.autoOf n).send = false := by
   unfold Table.autoOf
   rw [hd]
   simp only [applyImpls, hi]
-  rw [fieldsAuto_send_false _ _ _ f hf hv]
+  rw [fieldsAuto_send_false _ _ _ f hf hc hv]
   simp
 
 /-- `not_sync_of_field`. -/
 theorem not_sync_of_field (tbl : Table) (n : String) (d : AdtDef) (f : Field)
-    (hd : tbl.find n = some d) (hf : f ∈ d.fields)
+    (hd : tbl.find n = some d) (hf : f ∈ d.fields) (hc : f.cfg = "")
     (hv : (autoTy (adtAutoOracle tbl fuel) [] f.ty).sync = false)
     (hi : tbl.hasAutoImpl "Sync" n false = false) :
     (tbl.autoOf n).sync = false := by
   unfold Table.autoOf
   rw [hd]
   simp only [applyImpls, hi]
-  rw [fieldsAuto_sync_false _ _ _ f hf hv]
+  rw [fieldsAuto_sync_false _ _ _ f hf hc hv]
   simp
 
 /-! ## Binder closure -/
